@@ -478,7 +478,7 @@ FIBI = [R + 'fibre.c', R + 'list.c', R + 'messageq.c'] + UTIL
 ISR_STAGES = lambda sfx: [
     Stage('isr-sweep', ['harness/sched_isr.c'] + SHIM, FIBI, preset='shim', nproc=16,
           args={'quick': ['--extra', 'sweep' + sfx], 'thorough': ['--extra', 'sweep' + sfx]},
-          needs_min={'single_isr_placements': 3000, 'isr_inside_scheduler_pass': 1000, 'isr_inside_fibre_body': 100}),
+          needs_min={'single_isr_placements': 3000, 'isr_inside_scheduler_pass': 1000, 'isr_inside_fibre_body': 100, 'sleeper_ran_or_killed_another_fibre_before_sleeping': 100}),
     Stage('isr-nested', ['harness/sched_isr.c'] + SHIM, FIBI, preset='shim', nproc=16,
           args={'quick': ['--extra', 'nested' + sfx], 'thorough': ['--extra', 'nested' + sfx]},
           needs_min={'nested_pair_placements': 20000}, timeout={'quick': 900, 'thorough': 3600}),
@@ -490,14 +490,14 @@ ISR_STAGES = lambda sfx: [
           args={'quick': ['--extra', 'co' + sfx], 'thorough': ['--extra', 'co' + sfx]},
           needs_min={'coroutine_schedules': 5000, 'events_delivered': 10000})])
 PROPS['C03']['stages'] += ISR_STAGES(':c03')
-PROPS['C03']['rule'] += (' isr-*: the scenario family of C06 (event handler + yielder + sleeper, 8 scenarios) under a '
+PROPS['C03']['rule'] += (' isr-*: the scenario family of C06 (event handler + yielder + sleeper, 10 scenarios, two of them with a sleeper that runs or kills another fibre before it asks for its timeout) under a '
                          'simulated main loop in virtual time with WFE semantics; an interrupt handler (6 kinds) injected '
                          'before every schedule point (sweep), pairs nested at every (p,q), and random multi-ISR runs; '
                          'clauses: request accepted before the last load of the request-queue flag word / before the '
                          'scheduler\'s last state modification must make the pass return t; no sleep decision with an '
                          'unserved request, a just-yielded fibre or an earlier timeout.')
 PROPS['C03']['level_text'] += (' Interrupt timing: handlers are injected at every compiler-instrumented schedule point '
-                               'of the scheduler and fibre code in 8 scenarios, nested pairs at every (p,q), plus random '
+                               'of the scheduler and fibre code in 10 scenarios, nested pairs at every (p,q), plus random '
                                'runs; the sleep decision of a simulated main loop is monitored.')
 PROPS['C03']['level_note'] = ('"The scheduler\'s final check" is read in two ways that both hold on the unchanged tree: the '
                               'last atomic load of the request queue\'s flag word in the pass (learned from the first '
@@ -505,7 +505,7 @@ PROPS['C03']['level_note'] = ('"The scheduler\'s final check" is read in two way
                               'the scheduler\'s last plain write to its own state in the pass. Placements are swept for '
                               '<= 2 interrupts in fixed scenarios and sampled beyond.')
 prop('C06',
-     'isr-sweep: 8 scenarios from the quantifier\'s family (event-handling fibre with a 4-slot queue, yielding fibre, '
+     'isr-sweep: 10 scenarios from the quantifier\'s family (event-handling fibre with a 4-slot queue, yielding fibre, '
      'sleeping fibre, alone and combined, with fibre_run/fibre_kill/main-context events between passes), one of 6 '
      'interrupt handlers (run_atomic of each fibre, event send, burst of 9 requests, two events) injected before every '
      'schedule point of fibre_scheduler_next, fibre_run, fibre_kill and the handler fibre\'s receive/release/wait; '
@@ -519,13 +519,13 @@ prop('C06',
                   'event order uses the weakest reading: only operations (claim..send) that wholly precede one another '
                   'are ordered; nested ones may arrive either way',
                   'bounded progress: idle within fibres + requests + timer rounds + 12 passes after the last interrupt'],
-     exhaustive_note='sweep/nested stages: every placement of one interrupt and of a nested pair in the 8 scenarios',
+     exhaustive_note='sweep/nested stages: every placement of one interrupt and of a nested pair in the 10 scenarios',
      engine='E2', technique='runtime monitoring with schedule control: compiler-instrumented schedule points (private '
      '__tsan_* runtime), interrupt-injection sweeps (single, nested pairs) and random multi-interrupt runs; work-counter '
      'lost-wake-up oracle, unique-id event history, quiescence invariants',
      level_text='Exploration with fault enumeration of interrupt placements. The real fibre.c/messageq.c/list.c run '
      'under a private TSan runtime; interrupt handlers posting wake-ups and events are injected before every '
-     'instrumented memory access of the scheduler and of the event-handling fibre in 8 scenarios (and nested pairs at '
+     'instrumented memory access of the scheduler and of the event-handling fibre in 10 scenarios (and nested pairs at '
      'every (p,q)), plus random runs; monitors check that every accepted wake-up is observed by its fibre, every '
      'accepted event is received exactly once intact and in order, and that the scheduler reaches a clean idle state.',
      level_note='Placements of more than two interrupts and other scenarios are sampled, not enumerated; real-thread '
